@@ -230,7 +230,7 @@ def run(tier, seed, model_ok, spec_ok, replay=None):
     ncases = nested_rule_cases(g, rg, 120 if tier == "quick" else 3000, direct)
     nk_bad, _, nnk, _, nerr = run_passes("c13n", NESTED_IMPORTS, ncases, model_ok, False)
     for c in ncases:
-        dist["nested-rule:" + (("equal" if c.outcome[1][2] else "not-equal") if c.outcome[0] == "ok" else c.outcome[1])] += 0
+        pass
     nested_dist = Counter("nested-rule:" + (("equal" if c.outcome[1][2] else "not-equal") if c.outcome[0] == "ok" else c.outcome[1]) for c in ncases)
     k_bad = k_bad + [len(cases) + i for i in nk_bad]
     cases = cases + ncases
@@ -242,7 +242,7 @@ def run(tier, seed, model_ok, spec_ok, replay=None):
                    "json.dumps -> json.loads -> from_json_like; rebuilt == original; validity, failures and cast_data equal on a "
                    "plain and a cast-dense document; Rule.to_json_like also compared with the model; non-trivial = serialised OK",
            "samples": [{k: v for k, v in c.descr.items() if k != "coq"} for c in cases[:3]],
-           "k_mismatch": [cases[i].descr for i in k_bad], "o_violations": direct, "distribution": dict(dist)}
+           "k_mismatch": [cases[i].descr for i in k_bad], "o_violations": direct, "distribution": dict(list(dist.items()) + list(nested_dist.items()))}
     if err:
         res["k_mismatch"] = res["k_mismatch"] or [{"coq-eval-error": err}]
     return res
